@@ -516,3 +516,26 @@ Proof.
   rewrite app_length in L. cbn [length] in L. destruct l2; [|cbn [length] in L; lia].
   exists l1. reflexivity.
 Qed.
+
+(** ** UTF-8 bytes and character-wise padding *)
+Lemma utf8_cp_length c : Z.of_nat (length (utf8_cp c)) = width c.
+Proof. unfold utf8_cp, width. destruct (c <? 128), (c <? 2048), (c <? 65536); reflexivity. Qed.
+
+Lemma utf8_length s : Z.of_nat (length (utf8 s)) = blen s.
+Proof.
+  induction s as [|c s IH]; [reflexivity|]. unfold utf8 in *. cbn [flat_map blen].
+  rewrite app_length, Nat2Z.inj_add, utf8_cp_length, IH. reflexivity.
+Qed.
+
+Lemma take_pad_pad_right n s : (length s <= n)%nat -> take_pad n s = pad_right n s.
+Proof.
+  intros H. unfold take_pad, pad_right.
+  replace (repeat 48 n) with (repeat 48%Z (n - length s)%nat ++ repeat 48%Z (length s)).
+  2:{ rewrite <- repeat_app. f_equal. lia. }
+  rewrite app_assoc, firstn_app.
+  replace (n - length (s ++ repeat 48%Z (n - length s)))%nat with O by (rewrite app_length, repeat_length; lia).
+  cbn [firstn]. rewrite app_nil_r. apply firstn_all2. rewrite app_length, repeat_length. lia.
+Qed.
+
+Lemma take_pad_length n s : length (take_pad n s) = n.
+Proof. unfold take_pad. rewrite firstn_length, app_length, repeat_length. lia. Qed.
